@@ -241,6 +241,12 @@ func (ex *Exec) doGo(st *State, fr *Frame, x *ssa.Go) {
 	th := &Thread{name: fmt.Sprintf("go#%d:%s", len(st.threads), ct.fn.Name())}
 	st.threads = append(st.threads, th)
 	cur := st.cur
+	if ex.hbOn {
+		// the go statement happens before the new goroutine's first action
+		pv := st.hbVC(cur)
+		th.vc = vcTick(pv, len(st.threads)-1)
+		st.threads[cur].vc = vcTick(pv, cur)
+	}
 	st.cur = len(st.threads) - 1
 	if _, isIntr := intrinsics[ct.fn.String()]; isIntr || ct.fn.Blocks == nil {
 		unsup("go of intrinsic/external %s", ct.fn)
@@ -302,6 +308,9 @@ func (ex *Exec) builtin(st *State, fr *Frame, in ssa.Instruction, c *ssa.CallCom
 		switch s := args[1].(type) {
 		case SliceV:
 			src = append([]Value(nil), st.sliceVals(s)...)
+			if ex.hbOn && s.len > 0 && d.len > 0 {
+				ex.hbAccess(st, fr, s.arr, false)
+			}
 		case *StrV:
 			for _, b := range s.Bytes() {
 				src = append(src, b)
@@ -310,6 +319,9 @@ func (ex *Exec) builtin(st *State, fr *Frame, in ssa.Instruction, c *ssa.CallCom
 		n := len(src)
 		if d.len < n {
 			n = d.len
+		}
+		if ex.hbOn && n > 0 {
+			ex.hbAccess(st, fr, d.arr, true)
 		}
 		for i := 0; i < n; i++ {
 			st.store(st.sliceElem(d, i), src[i])
@@ -394,6 +406,9 @@ func (ex *Exec) appendSlice(st *State, s SliceV, more Value) SliceV {
 	switch m := more.(type) {
 	case SliceV:
 		add = st.sliceVals(m)
+		if ex.hbOn && m.len > 0 {
+			ex.hbAccessTop(st, m.arr, false)
+		}
 	case *StrV:
 		for _, b := range m.Bytes() {
 			add = append(add, b)
@@ -403,6 +418,9 @@ func (ex *Exec) appendSlice(st *State, s SliceV, more Value) SliceV {
 	}
 	if len(add) == 0 {
 		return s
+	}
+	if ex.hbOn && !s.IsNil() {
+		ex.hbAccessTop(st, s.arr, s.len+len(add) <= s.cap)
 	}
 	add = append([]Value(nil), add...)
 	for i := range add {
